@@ -283,6 +283,7 @@ def offenders(name, d, calls, pos, rng):
     if d >= 2:
         names = ["c%d" % i for i in range(d)]
         out.append(("names_renamed", "frame", m, container(base, "frame", ["q%d" % i for i in range(d)])))
+        out.append(("names_default", "frame", m, pd.DataFrame(base.copy())))  # pd.DataFrame(array): labels 0 .. d-1, not the established names
         out.append(("names_reordered", "frame", m, container(base[:, ::-1], "frame", names[::-1])))
         narrow = base[:, : d - 1]
         for c in ("ndarray", "frame"):
